@@ -17,26 +17,18 @@ type Time struct {
 var _ objecttypes.Value = Time{}
 
 func MapTime(lexicalForm string) (Time, error) {
-	lexicalForm = xsdutil.WhiteSpaceCollapse(lexicalForm)
-
-	for _, layout := range []string{
-		"15:04:05",
-		"15:04:05.000000000",
-		"15:04:05Z",
-		"15:04:05.000000000Z",
-		"15:04:05Z07:00",
-		"15:04:05.000000000Z07:00",
-	} {
-		parsed, err := time.Parse(layout, lexicalForm)
-		if err == nil {
-			return Time{
-				Time:   parsed,
-				Layout: layout,
-			}, nil
-		}
+	parsed, layout, ok := parseTimeLexicalForm(xsdutil.WhiteSpaceCollapse(lexicalForm), timeLexicalRE,
+		"15:04:05.999999999",
+		"15:04:05.999999999Z07:00",
+	)
+	if !ok {
+		return Time{}, rdf.ErrLiteralLexicalFormNotValid
 	}
 
-	return Time{}, rdf.ErrLiteralLexicalFormNotValid
+	return Time{
+		Time:   parsed,
+		Layout: layout,
+	}, nil
 }
 
 func (v Time) AsObjectValue() rdf.ObjectValue {
